@@ -377,6 +377,10 @@ class FlagParser:
         # evaluates to False.
         args.threadless = cast(bool, opts.get('threadless', args.threadless))
         args.threadless = is_threadless(args.threadless, args.threaded)
+        # Upstream connection pool is maintained by threadless executors only,
+        # in threaded mode every work manages its own upstream connection.
+        if not args.threadless and getattr(args, 'enable_conn_pool', False):
+            args.enable_conn_pool = False
 
         args.pid_file = cast(
             Optional[str], opts.get(
